@@ -88,6 +88,13 @@ func c20Check(k c20Case, bin, dir string) (sig, what string) {
 		case p.ContentSum != !k.SC:
 			return "lz4c: -sc does not disable the stream checksum (or it is off by default)", fmt.Sprintf("-sc=%v flag=%v", k.SC, p.ContentSum)
 		}
+		// every flag, the level included, must have the effect of the corresponding library option:
+		// compression is deterministic (C14), so the file must equal the frame the library's Writer
+		// produces through ReadFrom (what io.Copy uses) with those options
+		want, err := produceFrame(wopts{BS: c20Sizes[k.Size], BSum: k.BC, CSum: !k.SC, Level: k.Level, Conc: 1}, orig, delivery{Kind: "readfrom", Frag: 4})
+		if err == nil && !bytes.Equal(want, z) {
+			return "lz4c: the compressed file differs from what the library produces with the options the flags stand for (" + who + ")", fmt.Sprintf("-l %d: %s", k.Level, describeDiff(z, want))
+		}
 		return "", ""
 	}
 	if k.Stdio {
@@ -204,7 +211,7 @@ func c20Run(c *ev.Ctx) {
 							if B >= 1<<20 && !c.Thorough() && li%2 == 1 && l != 0 {
 								continue
 							}
-							k := c20Case{Size: size, BC: bc, SC: sc, Level: l, Conc: conc, Len: n, Kind: []string{"zeros", "lcg"}[i%2], Perm: perms[i%3], Stdio: i%4 == 0, Second: -1}
+							k := c20Case{Size: size, BC: bc, SC: sc, Level: l, Conc: conc, Len: n, Kind: []string{"zeros", "lcg", "text"}[i%3], Perm: perms[i%3], Stdio: i%4 == 0, Second: -1}
 							if i%8 == 3 {
 								k.Second = []int{0, 10, B + 1}[i%3]
 							}
